@@ -8,17 +8,11 @@ TB = ('Trusted: Coq 8.16.1 kernel (full .vo build, vm_compute, no native_compute
       'property theorem is copied into the evidence); the hand-written Gallina model is tied to /repo by the correspondence check '
       'run in the same command (Python harness, generators, Coq-term encoders); third-party functions are oracles with stated laws. ')
 
-CHECKS = {
- 'C16': dict(
-   technique='Coq proof over a Gallina model of key forming and storages + differential correspondence (vm_compute) against the real storage classes',
-   text='Theorems (all ids, all digests, unbounded): suffix shape, name length <= 63, charset, validity under the first/last-character guard '
-        '(+ refutation witness of the unguarded statement = known finding F2), long-id distinctness reduced to the hash, v1 length bound '
-        '(+ refutation for long prefixes = F12). The model (Keys.v, Storage.v) is run on the same (config, id, record, body, patch) cases as '
-        'AnnotationsProgressStorage/StatusProgressStorage/Multi/Smart and the diff-base storages: make_keys, store, fetch, purge, touch, clear. '
-        'Monitors evaluate round-trip, purge, isolation, determinism and name validity directly on the implementation.',
-   design='DESIGN.md §8 C16',
-   note=TB + 'blake2b/base64/json are oracles: digest bytes are supplied to the model; JEnc builds in loads(dumps x)=x (validated per record).'),
-}
+CHECKS = {}
+for f in sorted((ROOT / 'manifest.d').glob('C*.json')):
+    d = json.loads(f.read_text())
+    d['note'] = TB + d.get('note', '')
+    CHECKS[d['property_id']] = d
 
 
 def main():
